@@ -11,8 +11,8 @@ from vlib.gen import materials as gm
 ID = "C03"
 LEVEL = "exploration"
 RULE = ("enumerated: every ordered pair of distinct fcc metals on (100)/(111) and bcc metals on (100)/(110) with lattice mismatch < 5 %; drawn: 3-5 layers "
-        "each, 4x4-5x5 lateral repeats, pbc TTT/TTF, noise 0 / 0.03 A, permutation, noise draw, SBC seed; B is strained to A's in-plane cell and placed so "
-        "that the shortest A-B distance is r_A + r_B + 0.2 A, vacuum 14 A; distinct = SHA-1 of the descriptor; every judged case is an interface (non-trivial)")
+        "each, 4x4-5x5 lateral repeats, pbc TTT/TTF (TTT with 14 A vacuum or as an A/B superlattice in contact across the boundary), noise 0 / 0.03 A, permutation, noise draw, SBC seed; B is strained to A's in-plane cell and placed so "
+        "that the shortest A-B distance lies between A's bulk nearest-neighbour distance and r_A + r_B + 0.2 A, vacuum 14 A or none; distinct = SHA-1 of the descriptor; every judged case is an interface (non-trivial)")
 ASSUMPTIONS = [
     "independent precondition as in C02 (bonded with margin, no overlap with margin, m = 0.15 + 2*noise) evaluated on the generated stack; failing stacks are counted, not judged",
     "known findings, if any, are keyed by (A, B, structure, facet)",
@@ -25,7 +25,7 @@ def EXHAUSTIVE(tier):
 
 
 def plan(tier):
-    return {"n_random": 160 if tier == "quick" else 0, "item_draws": 8, "time_s": 700 if tier == "quick" else 1750, "shrink_evals": 0}
+    return {"n_random": 480 if tier == "quick" else 0, "item_draws": 8, "time_s": 700 if tier == "quick" else 1750, "shrink_evals": 0}
 
 
 @functools.lru_cache(maxsize=None)
@@ -45,7 +45,7 @@ def pairs():
 @st.composite
 def draws(draw, item):
     return {"item": item, "la": draw(st.integers(3, 5)), "lb": draw(st.integers(3, 5)), "size": draw(st.integers(4, 5)), "pbcz": draw(st.booleans()),
-            "noise": draw(st.sampled_from([0.0, 0.03])), "perm": draw(gm.seeds), "noise_seed": draw(gm.seeds), "sbc_seed": draw(st.integers(0, 10 ** 6))}
+            "noise": draw(st.sampled_from([0.0, 0.03])), "contact": draw(st.sampled_from([False, True])), "gapfrac": draw(st.sampled_from([1.0, 0.0, 0.5])), "registry": [draw(st.sampled_from([0.0, 0.5])), draw(st.sampled_from([0.0, 0.5]))], "perm": draw(gm.seeds), "noise_seed": draw(gm.seeds), "sbc_seed": draw(st.integers(0, 10 ** 6))}
 
 
 def items(tier):
@@ -66,8 +66,10 @@ def slab(sym, a, st_, facet, size, layers):
     return f(sym, size=(size, size, layers), a=a, vacuum=0.0)
 
 
-def stack(A, B, gapdist):
-    """B (already built with A's lattice constant = strained) on top of A with shortest A-B distance = gapdist; 14 A vacuum."""
+def stack(A, B, gapdist, contact=False):
+    """B (already built with A's lattice constant = strained) on top of A with shortest A-B distance = gapdist; 14 A vacuum,
+    or (contact=True, periodic stacking) no vacuum at all: the top of B touches the periodic image of A at the same distance,
+    i.e. an A/B superlattice."""
     from ase.geometry import get_distances
     A = A.copy(); B = B.copy()
     ca = np.asarray(A.get_cell()).copy()
@@ -92,6 +94,23 @@ def stack(A, B, gapdist):
     B.set_positions(pB)
     S = A + B
     z = S.get_positions()[:, 2]
+    if contact:
+        topB = pB[pB[:, 2] > pB[:, 2].max() - 0.1]
+        botA = A.get_positions()[zA < zA.min() + 0.1]
+
+        def mind2(h):
+            P = botA.copy(); P[:, 2] += h
+            return get_distances(topB, P, cell=cell, pbc=[1, 1, 0])[1].min()
+        base = z.max() - z.min()
+        lo, hi = base, base + 6.0
+        for _ in range(40):
+            mid = (lo + hi) / 2
+            if mind2(mid) < gapdist:
+                lo = mid
+            else:
+                hi = mid
+        S.set_cell([ca[0], ca[1], [0, 0, hi]], scale_atoms=False)
+        return S
     S.set_cell([ca[0], ca[1], [0, 0, z.max() - z.min() + 14.0]], scale_atoms=False)
     p = S.get_positions(); p[:, 2] += 7.0 - z.min()
     S.set_positions(p)
@@ -105,8 +124,17 @@ def run_case(desc):
     it = desc["item"]
     A = slab(it["A"], it["a"], it["st"], it["facet"], desc["size"], desc["la"])
     B = slab(it["B"], it["a"], it["st"], it["facet"], desc["size"], desc["lb"])
-    gd = covalent_radii[A.get_atomic_numbers()[0]] + covalent_radii[B.get_atomic_numbers()[0]] + 0.2
-    S = stack(A, B, gd)
+    # bonding distance across the interface: between the bulk nearest-neighbour distance of A (gapfrac 0) and the
+    # covalent-radii sum + 0.2 A (gapfrac 1); the precondition below screens what is bonded and non-overlapping
+    nn = it["a"] / np.sqrt(2.0) if it["st"] == "fcc" else it["a"] * np.sqrt(3.0) / 2.0
+    gf = float(desc.get("gapfrac", 1.0))
+    gd = (1.0 - gf) * nn + gf * (covalent_radii[A.get_atomic_numbers()[0]] + covalent_radii[B.get_atomic_numbers()[0]] + 0.2)
+    contact = bool(desc.get("contact")) and bool(desc["pbcz"])
+    # lateral registry of B on A: shift by halves of the 1x1 surface cell (on-top / bridge / hollow stackings)
+    reg = desc.get("registry") or [0.0, 0.0]
+    cA = np.asarray(A.get_cell())
+    B.set_positions(B.get_positions() + (reg[0] * cA[0] + reg[1] * cA[1]) / float(desc["size"]))
+    S = stack(A, B, gd, contact)
     S.set_pbc([True, True, bool(desc["pbcz"])])
     pc = gm.precondition(S, desc["noise"])
     if pc:
@@ -124,7 +152,7 @@ def run_case(desc):
     setA = {int(i) for i in range(n) if perm[i] < nA}
     setB = set(range(n)) - setA
     key = "%s/%s:%s:%s" % (it["A"], it["B"], it["st"], "".join(str(x) for x in it["facet"]))
-    out.cls("st=" + it["st"], "facet=" + "".join(str(x) for x in it["facet"]), "pbcz=%s" % desc["pbcz"], "noise=%g" % desc["noise"], "size=%d" % desc["size"])
+    out.cls("st=" + it["st"], "facet=" + "".join(str(x) for x in it["facet"]), "pbcz=%s" % desc["pbcz"], "noise=%g" % desc["noise"], "size=%d" % desc["size"], "superlattice" if contact else "vacuum", "gapfrac=%g" % gf)
     out.nontrivial = True
     ok, cl = call(lambda: SBC().get_clusters(s2, seed=desc["sbc_seed"]))
     if not ok:
